@@ -3,16 +3,16 @@ import Model.Sched
 /-!
 Model of `enspara.info_theory`:
 
-* `libinfo.matrix_bincount2d` (libinfo.pyx L49-74): the guard stage (the six `assert`s, in
+* `libinfo.matrix_bincount2d` (libinfo.pyx L51-79) and the 1-D kernel `libinfo.bincount2d` (L29-48): the guard stage (the six `assert`s, in
   source order; `.max()`/`.min()` of an empty array raise `ValueError`) followed by the
   triple loop `for a_row in prange(..): for b_row: for t: jc[a_row,b_row,a[t,a_row],b[t,b_row]] += 1`.
   The loop is written as a *schedule*: a list of `(a_row, step)` pairs where a step acts on the
   slab `jc[a_row, …]` only (`Model.Sched`; `seqExec` is the source order).
-* `mutual_info.joint_counts` (L212-269): default state counts computed in the array dtype
-  (`int(X.max())+1`), dtype harmonisation by item size with `astype`
-  (a C cast: two's-complement wrap), C-`int` conversion of the state counts.
-* `mutual_info.mutual_information` (L272-330), `weighted_mi` (L78-179),
-  `channel_capacity_normalization` (L554-587) with `_validate_feature_states_array`,
+* `mutual_info.joint_counts` (L212-277): default state counts `int(X.max())+1`, dtype harmonisation
+  (negative ids rejected, then the wider type wins, at equal item size the unsigned one; `astype` is a
+  C cast: two's-complement wrap), C-`int` conversion of the state counts.  `mi_matrix` (L23-75).
+* `mutual_info.mutual_information` (L280-338), `weighted_mi` (L78-179),
+  `channel_capacity_normalization` (L562-595) with `_validate_feature_states_array`,
   `entropy.shannon_entropy` (L172-196), `entropy.kl_divergence` (L199-258):
   floats are not modelled; every function returns the exact rational coefficient and the exact
   rational argument of each logarithm it takes (`(c, x)` stands for `c * log x`).
@@ -122,6 +122,35 @@ def JC.toLists (j : JC) : List (List (List (List Nat))) :=
 /-- pointwise sum (`jc += jc_i` in `mi_matrix`) -/
 def JC.add (p q : JC) : JC := { p with cnt := fun x y i j => p.cnt x y i j + q.cnt x y i j }
 
+/-! ### `bincount2d` (the 1-D kernel, libinfo.pyx L29-48) -/
+
+/-- a single joint-count table of shape `(nA, nB)` -/
+structure Tab2 where
+  nA : Int
+  nB : Int
+  cnt : Int → Int → Nat
+
+/-- the cells touched by the loop `for t: H[a[t], b[t]] += 1` (1-D arrays are columns 0) -/
+def writes1 (a b : Arr) : List (Nat × Int × Int) :=
+  (List.range a.T).map fun t => (0, a.get t 0, b.get t 0)
+
+/-- `np.zeros((n_a, n_b))` (negative sizes raise `ValueError`), the length assert, the range
+asserts (only for non-empty input), the sequential loop -/
+def bincount2d (a b : Arr) (nA nB : Int) : Except Err Tab2 := do
+  if nA < 0 ∨ nB < 0 then throw .valueError
+  if a.T ≠ b.T then throw .assertion
+  if a.T > 0 then
+    match a.max?, b.max?, a.min?, b.min? with
+    | some ma, some mb, some la, some lb =>
+      if ¬ (ma < nA ∧ mb < nB) then throw .assertion
+      if ¬ (0 ≤ la ∧ 0 ≤ lb) then throw .assertion
+    | _, _, _, _ => throw .valueError
+  pure { nA := nA, nB := nB,
+         cnt := Sched.runSteps ((writes1 a b).map fun w => bumpS w.1 w.2.1 w.2.2) zeroSlab 0 }
+
+def Tab2.toLists (h : Tab2) : List (List Nat) :=
+  tabulate h.nA.toNat fun u => tabulate h.nB.toNat fun v => h.cnt u v
+
 /-! ### `joint_counts` -/
 
 structure DType where
@@ -160,7 +189,7 @@ def matrixBincount2dTyped (a b : TArr) (nA nB : Int) : Except Err JC := do
   let nB ← toCInt nB
   matrixBincount2d a.arr b.arr nA nB
 
-/-- dtype harmonisation of `joint_counts` (L257-273): negative ids are rejected before the cast;
+/-- dtype harmonisation of `joint_counts` (L257-275): negative ids are rejected before the cast;
 the wider type wins, at equal item size the unsigned one -/
 def harmonise (X Y : TArr) : Except Err (TArr × TArr) :=
   if X.dt = Y.dt then pure (X, Y)
